@@ -453,7 +453,7 @@ def run(ctx):
     ctx.assumptions += ["snprintf %u / %x print canonical decimal / lower-case hex for arguments < 256 / < 65536",
                         "sizes passed to uv__strscpy are <= SSIZE_MAX+1",
                         "sin6_scope_id = if_nametoindex(zone) is an OS answer (monitor only)"]
-    proofs_ok = ctx.require_lean(["UvModel.Props.C18Inet", "UvModel.Props.C18Text"])
+    proofs_ok = ctx.require_lean(["UvModel.Props.C18Inet", "UvModel.Props.C18Text", "UvModel.Props.C18Gai"])
     exe = ctx.harness("c18_inet", ["harness/c18_inet.c"], link_lib=True)
     if exe is not None:
         run_inet(ctx, exe, proofs_ok)
